@@ -85,3 +85,26 @@ Definition to_le (t : ity) (x : Z) : Z := x.
 Definition to_be (t : ity) (x : Z) : Z := swap_bytes t x.
 
 Definition is_multiple_of (a n : Z) : bool := if n =? 0 then a =? 0 else a mod n =? 0.
+
+(** `x.checked_add(y)` *)
+Definition ochecked_add (t : ity) (a b : Z) : option Z := if in_tyb t (a + b) then Some (a + b) else None.
+
+(** control flow of translated blocks: fall through with the updated variables, or `return r` *)
+Inductive ctl (R S : Type) : Type := Next (s : S) | Ret (r : R).
+Arguments Next {R S} s. Arguments Ret {R S} r.
+
+(** `while c { body }` on explicit fuel *)
+Fixpoint loop {S : Type} (fuel : nat) (cond : S -> res bool) (body : S -> res S) (s : S) : res S :=
+  match fuel with
+  | O => OutOfFuel
+  | Datatypes.S f => c <- cond s ;; if c then s' <- body s ;; loop f cond body s' else Ok s
+  end.
+Fixpoint loop_ctl {R S : Type} (fuel : nat) (cond : S -> res bool) (body : S -> res (ctl R S)) (s : S)
+  : res (ctl R S) :=
+  match fuel with
+  | O => OutOfFuel
+  | Datatypes.S f =>
+      c <- cond s ;;
+      if c then x <- body s ;; match x with Ret r => Ok (Ret r) | Next s' => loop_ctl f cond body s' end
+      else Ok (Next s)
+  end.
